@@ -16,6 +16,8 @@
 (*         Next(c, res) / Head(c, res) / Stop(c), each with                 *)
 (*               calls = Next calls seen so far by the clone's underlying   *)
 (*               iterator, stopped = indices of stopped underlying iterators*)
+(*         CNext(c, res, fired): a Next whose caller is cancelled while the   *)
+(*               underlying iterator is being read for it                    *)
 (*         Consumer(obs, full): a goroutine's complete observation in a     *)
 (*               concurrent run (full = it drained until the terminal)      *)
 (***************************************************************************)
@@ -107,6 +109,31 @@ TrOp(advance) ==
 TrNext == IsEvent("Next") /\ TrOp(TRUE)
 TrHead == IsEvent("Head") /\ TrOp(FALSE)
 
+\* CNext: a Next whose caller's context is cancelled at the moment the underlying iterator is read on
+\* its behalf (fired = the underlying iterator was read during the call).  When the clone can be served
+\* from what is already fetched nothing is read and the call is an ordinary Next.  Otherwise the fetch
+\* belongs to the shared stream, not to the caller (SharedIter!Fetch has no consumer parameter): it
+\* completes, the caller alone gets the cancellation (-98) and does not advance.
+TrCNext ==
+  /\ IsEvent("CNext")
+  /\ LET c == Ev1.c
+         g == cg[c]
+         needs == g # 0 /\ cst[c] = "active" /\ ~(head[c] < gens[g].fetched \/ gens[g].term # 0)
+     IN IF g = 0 \/ cst[c] # "active" THEN      \* a bypassing consumer reads its own iterator: its cancellation is its own
+             /\ Judge("OK_SHARED_OP", "") /\ UNCHANGED <<gens, head, u, termu, b, cur, cg, cst>>
+        ELSE IF ~needs THEN
+             IF Ev1.fired THEN /\ Judge("BAD_SHARED_UNNEEDED_FETCH", "") /\ UNCHANGED <<gens, head, u, termu, b, cur, cg, cst>>
+             ELSE TrOp(TRUE)
+        ELSE LET ft == FetchClosure(gens[g].fetched, gens[g].term, head[c])
+                 G2 == Upd(gens, g, [gens[g] EXCEPT !.fetched = ft[1], !.term = ft[2]])
+                 wantCalls == G2[g].fetched + (IF G2[g].term # 0 THEN 1 ELSE 0)
+             IN /\ gens' = G2 /\ UNCHANGED <<head, u, termu, b, cur, cg, cst>>
+                /\ IF ~Ev1.fired THEN Judge("BAD_SHARED_FETCH_MISSING", "")
+                   ELSE IF Ev1.res # -98 THEN Judge("BAD_SHARED_RESULT", "-98")
+                   ELSE IF Ev1.calls # wantCalls THEN Judge("BAD_SHARED_CANCELLED_FETCH_ABORTED", ToString(wantCalls))
+                   ELSE IF ~StoppedOK(G2, cst, Ev1) THEN Judge("BAD_SHARED_RELEASE", "")
+                   ELSE Judge("OK_SHARED_OP", "")
+
 \* SharedIter!Stop
 TrStop ==
   /\ IsEvent("Stop")
@@ -135,6 +162,6 @@ TrEnd ==
   /\ PrintT(<<"VERIF", "END", ToJson([l |-> l, judged |-> judged, skipped |-> 0, bad |-> bad, counts |-> counts])>>)
   /\ UNCHANGED <<u, termu, b, gens, cur, cg, cst, head, bad, counts, judged>>
 
-Spec == Init /\ [][TrReset \/ TrClone \/ TrNext \/ TrHead \/ TrStop \/ TrConsumer \/ TrEnd]_vars
+Spec == Init /\ [][TrReset \/ TrClone \/ TrNext \/ TrHead \/ TrCNext \/ TrStop \/ TrConsumer \/ TrEnd]_vars
 TraceAccepted == TLCGet("stats").diameter - 1 = Len(Trace)
 =============================================================================
